@@ -23,6 +23,8 @@ mod c08;
 #[cfg(kani)]
 mod c17;
 #[cfg(kani)]
+pub mod sgen;
+#[cfg(kani)]
 mod warmup {
     kproof!(warmup, 4, {
         let x: u8 = kani::any();
